@@ -124,7 +124,7 @@ func pathEventCountsDeep(fn *ssa.Function, ev func(ssa.Instruction) bool, mkEdge
 				}
 				nk = phiOutcomes(b, s, nk) // flag variables: the constant a boolean phi receives over this edge
 				c2 := cnts
-				if isEv[Edge{b, i}] {
+				if isEv[Edge{From: b, Idx: i}] {
 					c2 = shiftCounts(cnts, map[int]bool{1: true})
 				}
 				dfs(s, c2, nk)
@@ -528,7 +528,7 @@ func (c *Ctx) checkTokens() {
 				okCh = all
 			}
 		}
-		c.check(okAdd && okCh && nOps == 1, rule, fmt.Sprintf("tokens_t.%s: counter %+d and one %s on ch exactly when capacity != 0", w.fn.Name(), w.delta, w.dir), p.Pos(w.fn.Pos()), "",
+		c.check(okAdd && okCh && nOps == 1, rule, fmt.Sprintf("tokens_t.%s: counter %+d and one %s on ch exactly when capacity != 0", p.RefName(w.fn), w.delta, w.dir), p.Pos(w.fn.Pos()), "",
 			"the slot counter and the semaphore channel are not updated together: reported load and admitted sessions diverge, or capacity is not enforced")
 	}
 	// ch = make(chan struct{}, capacity)
@@ -550,8 +550,12 @@ func (c *Ctx) checkTokens() {
 		}
 		bad := 0
 		for _, a := range accessesOfField(px, f, false) {
-			n := a.Fn.Name()
-			owner := a.Fn.Signature.Recv() != nil && (n == "get" || n == "ret" || n == "count")
+			top := a.Fn
+			for top.Parent() != nil {
+				top = top.Parent()
+			}
+			n := p.RefName(top)
+			owner := top.Signature.Recv() != nil && (n == "get" || n == "ret" || n == "count")
 			if owner || a.Fn == newT {
 				continue
 			}
